@@ -176,6 +176,16 @@ pub fn master_locations<'a>(
 }
 
 pub fn to_ir_axes(axes: &[designspace::Axis]) -> Result<fontdrasil::types::Axes, Error> {
+    // two axes with one tag would give fvar two axes while every variation
+    // store, keyed by tag, only knows one: a malformed font
+    for (i, axis) in axes.iter().enumerate() {
+        if axes[..i].iter().any(|prior| prior.tag == axis.tag) {
+            return Err(Error::InvalidEntry(
+                "axis",
+                format!("tag '{}' is used by more than one axis", axis.tag),
+            ));
+        }
+    }
     axes.iter().map(to_ir_axis).collect()
 }
 
